@@ -91,7 +91,8 @@ def expected_module(d, v):
                 visit(sname, sub)
                 fact["kind"] = "structarr" if arr else "struct"; fact["struct"] = sname
                 members = [m for m in sub if inr(parse_range(m.get("versions", m.get("taggedVersions"))), v)]
-                if inline and not arr and tag is not None and "default" not in f and not nullable_v and members and all("default" in m for m in members):
+                if inline and not arr and tag is not None and "default" not in f and not nullable_v and members and all("default" in m for m in sub):
+                    # (all members of ALL versions: the generator's test is not version-filtered - a documented oddity, DESIGN section 5)
                     fact["_default_is_struct_of_member_defaults"] = True      # "defaults as the definition states"
                 fact["optional"] = nullable_v if (arr or inline) else False
             exp.append(fact)
